@@ -56,7 +56,7 @@ class Q:
         self.items.append(x)
 
 
-def pool_menu(H):
+def pool_menu(H, big=False):
     """pending transactions valid at H (name -> tx); fees 0, 3, 1000, 10^8; 1- and 2-input"""
     U = H.utxo
     o0 = owned(U, K[0])
@@ -74,6 +74,29 @@ def pool_menu(H):
     if len(o1) >= 2:
         v = U[o1[0]][0] + U[o1[1]][0]
         out['2in-fee3'] = world.mk_tx([(oref(o1[0]), K[1]), (oref(o1[1]), K[1])], [(v // 2, K[0]), (v - v // 2 - 3, K[1])])
+    if big and len(o0) > 1 and [n_ for n_ in out if n_ != 'fee0']:
+        # a pool that fits in one block ONLY JUST: a small fee-paying transaction plus one with so many outputs that the block
+        # holding both (and the reward) is within one output's size of the 200,000-byte limit
+        from skepticoin import consensus
+        MAXB = consensus.MAX_BLOCK_SIZE
+        small = out[[n_ for n_ in sorted(out) if n_ != 'fee0'][0]]
+        v = U[o0[1]][0]
+
+        def mk(n):
+            return world.mk_tx([(oref(o0[1]), K[0])], [(1, K[2])] * n + [(v - n - 5000, K[0])])
+
+        def size(t):
+            return len(enc.enc_block(world.assemble(H, [small, t], K[5], H.ts + 120, pow_ok=None, no_evidence=True)))
+        try:
+            s1, s2 = size(mk(1000)), size(mk(1001))
+            per = s2 - s1
+            n = 1000 + (MAXB - s1) // per
+            while size(mk(n)) > MAXB:
+                n -= 1
+            if v - n - 5000 > 0 and MAXB - size(mk(n)) < per:
+                out['zbig-to-the-limit'] = mk(n)
+        except Exception:
+            pass
     return out
 
 
@@ -119,7 +142,7 @@ def one_run(hist, pool_names, off, inter, uni_kind='easy'):
     node.tick()
     for p in peers:
         p.received()
-    menu = pool_menu(H)
+    menu = pool_menu(H, big='zbig-to-the-limit' in pool_names)
     for nm in pool_names:
         node.cm.add_transaction_to_pool(menu[nm])
     pool_txs = [menu[nm] for nm in pool_names]
@@ -370,6 +393,10 @@ def configs(ctx):
             H = fc.head()
             names = sorted(pool_menu(H).keys())
             subsets = [s for k in range(0, 4) for s in itertools.combinations(names, k)]
+            if hist == lv[0] and [n_ for n_ in names if n_ != 'fee0']:
+                # (one state per depth) the pool that fits in one block only just
+                for off in (0, 120):
+                    out.append((hist, ([n_ for n_ in names if n_ != 'fee0'][0], 'zbig-to-the-limit'), off, 'none'))
             for sub in subsets:
                 for off in OFFSETS:
                     inters = ['none']
